@@ -96,22 +96,27 @@ def explore_loci(modname, results, run=None, admissible=None, max_new=24):
         cfg0 = r['cfg']
         for a, b, where in r.get('eq_events', []):
             a, b = (tuple(a) if a else None), (tuple(b) if b else None)
+            pairs = []
             if a and b and a[0] == 'var' and b[0] in ('var', 'num'):
-                vn, to = a[1], b[1]
+                pairs = [(a[1], b[1])]
             elif a and b and b[0] == 'var' and a[0] == 'num':
-                vn, to = b[1], a[1]
-            else:
+                pairs = [(b[1], a[1])]
+            elif a and b and {a[0], b[0]} == {'prod', 'num'} and Fraction((a if a[0] == 'num' else b)[1]) == 0:
+                # a product of symbols compared with zero: one locus per factor that is an input (harness atoms are generic values)
+                pairs = [(nm, '0') for nm in (a if a[0] == 'prod' else b)[1].split(',') if '#' not in nm and '!' not in nm]
+            if not pairs:
                 if len(unexplored) < 20 and not any(u['where'] == where for u in unexplored):
                     unexplored.append({'where': where, 'comparison': [a, b], 'configuration': cfg0['group']})
                 continue
-            if '#' in vn or '!' in vn or '#' in to or '!' in to:
-                continue            # harness atoms (integral tables, trig classes), not inputs
-            if admissible is not None and not admissible(vn, to, cfg0):
-                inadmissible.add('%s %s  @ %s' % (vn, to, where))
-                continue
-            by_locus.setdefault((vn, to, where), [])
-            if not any(c['group'] == cfg0['group'] for c in by_locus[(vn, to, where)]):
-                by_locus[(vn, to, where)].append(cfg0)
+            for vn, to in pairs:
+                if '#' in vn or '!' in vn or '#' in to or '!' in to:
+                    continue            # harness atoms (integral tables, trig classes), not inputs
+                if admissible is not None and not admissible(vn, to, cfg0):
+                    inadmissible.add('%s %s  @ %s' % (vn, to, where))
+                    continue
+                by_locus.setdefault((vn, to, where), [])
+                if not any(c['group'] == cfg0['group'] for c in by_locus[(vn, to, where)]):
+                    by_locus[(vn, to, where)].append(cfg0)
     follow = []
     depth = 0
     while len(follow) < max_new and any(len(v) > depth for v in by_locus.values()):
